@@ -69,6 +69,9 @@ def base_verdict(sim, scenario):
     }
     if scenario.get("_with_log"):
         verdict["log"] = sim.log
+    if getattr(sim, "shared_violation", None):
+        # something a peer observed itself (it was served to the wrong request, its private context was overwritten)
+        fail(verdict, *sim.shared_violation)
     return verdict
 
 
